@@ -40,6 +40,21 @@ def prepare_cattrs(modname):
             return _cache[cls]
 
         setattr(mod, name, memo)
+    # Hook registration is repeated on every structure/unstructure call; each repetition clears cattrs' dispatch caches and
+    # makes cattrs regenerate (eval) its container functions, which is again not replay-deterministic under the tracer.
+    # Run each top-level registration once per class (the concrete warm-up); later calls are no-ops.
+    for name in ("_register_structure_hooks_recursively", "_register_unstructure_hooks_recursively"):
+        real = getattr(mod, name)
+        done = set()
+
+        def once(cls, visited=None, _real=real, _done=done):
+            if visited is None:
+                if cls in _done:
+                    return None
+                _done.add(cls)
+            return _real(cls, visited)
+
+        setattr(mod, name, once)
     return mod
 
 
